@@ -308,3 +308,43 @@ Theorem C04_engine_join_error_means_unreachable : forall sp s name,
   end.
 Proof. exact EngineMore.join_error_means_unreachable. Qed.
 Print Assumptions C04_engine_join_error_means_unreachable.
+
+(* a WAITING join is woken up whenever its prerequisites change: when one task execution changes (anything but
+   its name and id - Task.complete writes the state and the routes) and the workflow is still running, every
+   OTHER join that has a task execution and whose logical state (RUNNING / ERROR / WAITING) is different
+   afterwards gets a refresh job from _check_affected_tasks; for every program (cycles, any join kinds,
+   chains through tasks that have no execution yet), every state and every id order
+   (Proofs/EngineAffected.v: completeness of find_indirectly_affected_task_executions with respect to
+   _get_join_logical_state / _possible_route) *)
+Require Mistral.Proofs.EngineAffected.
+Theorem C04_engine_changed_joins_get_refresh : forall sp s0 s tid j t ops,
+  map EngineAffected.tkey (Engine.tasks s) = map EngineAffected.tkey (Engine.tasks s0) ->
+  (forall k, k <> tid -> Engine.get_task s k = Engine.get_task s0 k) ->
+  Gen.States.is_completed (Engine.t_state (Engine.get_task s tid)) = true ->
+  Gen.States.is_completed (Engine.wf_state s) = false ->
+  j <> Engine.t_name (Engine.get_task s tid) -> Engine.is_join sp j = true ->
+  Engine.find_last_by_name s j = Some t ->
+  Engine.join_logical sp s j <> Engine.join_logical sp s0 j ->
+  In (Engine.OSchedRefresh t) (snd (Engine.check_affected sp (s, ops) tid)).
+Proof. exact EngineAffected.changed_joins_get_refresh. Qed.
+Print Assumptions C04_engine_changed_joins_get_refresh.
+
+(* hypotheses met through a task without an execution: 0 -> 1 -> join 2 (all of 1 and 3), task 0 fails *)
+Example C04_engine_changed_joins_get_refresh_nonvacuous :
+  let sp := [ Engine.mkTspec Engine.JNone [(Engine.TTask 1, Engine.GTrue)] [] [] [] [Engine.OErr];
+              Engine.mkTspec Engine.JNone [(Engine.TTask 2, Engine.GTrue)] [] [] [] [Engine.OOk];
+              Engine.mkTspec Engine.JAll [] [] [] [] [Engine.OOk];
+              Engine.mkTspec Engine.JNone [(Engine.TTask 2, Engine.GTrue)] [] [] [] [Engine.OOk] ] in
+  let row0 := Engine.mkTrow 0 Gen.States.RUNNING false [] false false false 0 [] in
+  let row3 := Engine.mkTrow 3 Gen.States.SUCCESS true [(2, Engine.OnSuccess)] true false false 1 [] in
+  let rowj := Engine.mkTrow 2 Gen.States.WAITING false [] false false true 2 [1] in
+  let s0 := Engine.mkSt true Gen.States.RUNNING [] [row0; row3; rowj] [] [] [] [] in
+  let s := Engine.upd_task s0 0 (Engine.mkTrow 0 Gen.States.ERROR true [] false false false 0 []) in
+  map EngineAffected.tkey (Engine.tasks s) = map EngineAffected.tkey (Engine.tasks s0) /\
+  (forall k, k <> 0 -> Engine.get_task s k = Engine.get_task s0 k) /\
+  Gen.States.is_completed (Engine.t_state (Engine.get_task s 0)) = true /\
+  Gen.States.is_completed (Engine.wf_state s) = false /\
+  Engine.is_join sp 2 = true /\ Engine.find_last_by_name s 2 = Some 2 /\ Engine.find_last_by_name s 1 = None /\
+  Engine.join_logical sp s0 2 = Gen.States.WAITING /\ Engine.join_logical sp s 2 = Gen.States.ERROR /\
+  Engine.affected sp s 0 = [2] /\ snd (Engine.check_affected sp (s, []) 0) = [Engine.OSchedRefresh 2].
+Proof. exact EngineAffected.affected_complete_nonvacuous. Qed.
